@@ -1218,12 +1218,13 @@ def resource_groups(rng):
     # plugin next to the recipe: class missing in the module, then a plugin under another module name in the same directory
     plug = "- snowfakery_version: 3\n- plugin: {m}.Local\n- object: P\n  fields:\n    plug: ${{{{Local.val()}}}}\n"
     m1, m2 = "gp_" + w + "a", "gp_" + w + "b"
-    # (the `plugins` directory exists from the start: a directory that appears only later is finding D58, separate group below)
+    # (the `plugins` directory exists from the start; the directory appearing only later is the D58 regression group below)
     groups.append([spec("g_plugin", plug.format(m="gp_missing_" + w), {"plugins/readme.txt": "x"}),
                    spec("g_plugin", plug.format(m=m1), {"plugins/readme.txt": "x", f"plugins/{m1}.py": "x = 1\n"}),
                    spec("g_plugin", plug.format(m=m2), {"plugins/readme.txt": "x", f"plugins/{m1}.py": "x = 1\n",
                                                         f"plugins/{m2}.py": PLUGIN_SRC.format(cls="Local", val=w)})])
-    # D58: the recipe's `plugins` directory does not exist at the first (failing) attempt and is created afterwards
+    # D58 (repaired by commit b940bd9; its signature only labels a relapse): the recipe's `plugins` directory does not exist at
+    # the first (failing) attempt and is created afterwards
     m3 = "gp_" + w + "c"
     groups.append([spec("g_plugdir", plug.format(m=m3), {}, features=["resource_group", "late_plugin_dir"]),
                    spec("g_plugdir", plug.format(m=m3), {f"plugins/{m3}.py": PLUGIN_SRC.format(cls="Local", val=w)},
